@@ -3,11 +3,13 @@
    [C27_monitor] (implementation observations only). *)
 From WK Require Import Base.Base Base.Bytes Gen.Consts_C27.
 From WK Require Export Model.ClusterCodecBase Model.ClusterCodec_Replication Model.ClusterCodec_Propose
-  Model.ClusterCodec_Channels.
+  Model.ClusterCodec_Channels Model.ClusterCodec_SlotFSM.
 Open Scope N_scope.
 
 (* long byte strings arrive in chunks: (hxc "6869..." (hxc "..." [])) *)
 Definition hxc (s : string) (rest : bytes) : bytes := hx s ++ rest.
+(* ... and runs of zero bytes by length: (hz 96 rest) *)
+Definition hz (n : N) (rest : bytes) : bytes := repeat 0 (N.to_nat n) ++ rest.
 
 (* what the harness hands over per codec: the generated value ([v], value mode
    only) and what the implementation's Decode returned on the case's bytes
@@ -33,6 +35,9 @@ Inductive c27_payload :=
 | PChPullResponse (v res : option (N * pull_response))
 | PChAppendResponse (v res : option (N * append_result))
 | PChLastVisibleResponse (v res : option (N * last_visible_response))
+(* pkg/slot/fsm: a modelled command; the encoding of an unmodelled command type *)
+| PFsm (v res : option fsm_command)
+| PFsmOther (res : option fsm_command)
 (* codecs without a model: the harness compared Decode (Encode v) with v itself *)
 | POpaque (id : N) (dec_ok rt_same : bool).
 
@@ -76,6 +81,15 @@ Definition mismatch_codec {A} (f : fmt A) := mismatch_eq (veqb f).
 Definition eff_res {A} (c : c27_case) (v res : option A) : option A :=
   if c_res_same c then v else res.
 
+(* the model knows the decoder TABLE for every command type but the field decoders of
+   four: where it answers [CmdOther t] the implementation may also find the fields invalid *)
+Definition fsm_agree (m impl : option fsm_command) : bool :=
+  match m with
+  | Some (CmdOther t) =>
+    match impl with None => true | Some (CmdOther t') => t =? t' | Some _ => false end
+  | _ => option_eqb command_eqb m impl
+  end.
+
 Definition mismatch_frame {A} (f : fmt (N * A)) := mismatch_codec f (encode_frame f) (decode_frame f).
 
 Definition C27_mismatch (c : c27_case) : bool :=
@@ -105,6 +119,14 @@ Definition C27_mismatch (c : c27_case) : bool :=
   | PChPullResponse v res => mismatch_frame f_pull_response c v (eff_res c v res)
   | PChAppendResponse v res => mismatch_frame f_append_response c v (eff_res c v res)
   | PChLastVisibleResponse v res => mismatch_frame f_last_visible_response c v (eff_res c v res)
+  | PFsm v res =>
+    match c_mode c, v with
+    | 0, Some x => negb (option_eqb bytes_eqb (encodeCommand x) (Some (c_data c)))
+                   || negb (fsm_agree (decodeCommand (c_data c)) (eff_res c v res))
+    | 0, None => true
+    | _, _ => negb (fsm_agree (decodeCommand (c_data c)) res)
+    end
+  | PFsmOther res => negb (fsm_agree (decodeCommand (c_data c)) res)
   | POpaque _ _ _ => false
   end.
 
@@ -211,9 +233,29 @@ Definition monitor_frame {A} (f : fmt (N * A)) (clear : A -> A) :=
   monitor_lossy f (on_body clear) ChannelsAllocBase ChannelsAllocPerByte.
 Definition same {A} (x : A) : A := x.
 
+(* TLV frames: a prefix that ends at a field boundary is a frame again (absent
+   fields keep their zero value); any other prefix must be rejected *)
+Definition prefix_ok_tlv (data : bytes) (k : N) : bool := tlv_complete (firstn (N.to_nat k) data).
+
+Definition monitor_fsm (c : c27_case) (v res : option fsm_command) (need_value : bool) : N :=
+  if negb (alloc_under FsmAllocBase FsmAllocPerByte c) then 1
+  else match c_mode c with
+       | 0 =>
+         if negb (forallb (prefix_ok_tlv (c_data c)) (c_trunc_ok c)) then 1
+         else if need_value then
+           match v with
+           | Some x => if command_wf x && negb (option_eqb command_eqb res (Some x)) then 1 else 0
+           | None => 1
+           end
+         else if is_none res then 1 else 0          (* what the real encoder wrote must decode *)
+       | 1 => if negb (tlv_complete (c_data c)) && negb (is_none res) then 1 else 0
+       | _ => 0
+       end.
+
 (* an unmodelled codec: the harness's own comparison, truncations and allocation *)
-Definition monitor_opaque (c : c27_case) (dec_ok rt_same : bool) : N :=
-  if negb (alloc_under ChannelsAllocBase ChannelsAllocPerByte c) then 1
+Definition monitor_opaque (c : c27_case) (id : N) (dec_ok rt_same : bool) : N :=
+  if negb (if id <? 100 then alloc_under ChannelsAllocBase ChannelsAllocPerByte c
+           else alloc_under JsonAllocBase JsonAllocPerByte c) then 1
   else match c_mode c with
        | 0 => if c_enc_ok c then (if rt_same && no_prefix_accepted c then 0 else 1) else 0
        | 1 => if dec_ok then 1 else 0
@@ -253,5 +295,7 @@ Definition C27_monitor (c : c27_case) : N :=
   | PChPullResponse v res => monitor_frame f_pull_response clear_pull_response c v (eff_res c v res)
   | PChAppendResponse v res => monitor_frame f_append_response clear_append_result c v (eff_res c v res)
   | PChLastVisibleResponse v res => monitor_frame f_last_visible_response clear_last_visible_response c v (eff_res c v res)
-  | POpaque _ dec_ok rt_same => monitor_opaque c dec_ok rt_same
+  | PFsm v res => monitor_fsm c v (eff_res c v res) true
+  | PFsmOther res => monitor_fsm c None res false
+  | POpaque id dec_ok rt_same => monitor_opaque c id dec_ok rt_same
   end.
